@@ -283,6 +283,13 @@ def main():
             dict(bf='RT1', mk=any_m, nwith=0, nseq=2, nse=2, rk=base_rk),
             dict(bf='DEFAULT', mk=any_m, nwith=2, nseq=0, nse=3, rk=base_rk),
         ]
+        if f['ret'] == 'void':
+            # the two-argument spellings of the _V macros (no modifiers at all) take a different macro path
+            forced += [dict(bf='ALLOW', mk=any_m, nwith=0, nseq=0, nse=0, rk='NONE', vform=True),
+                       dict(bf='ALLOW', mk=val_m, nwith=0, nseq=0, nse=0, rk='NONE', vform=True),
+                       dict(bf='FORBID', mk=val_m, nwith=0, vform=True),
+                       dict(bf='DEFAULT', mk=any_m, nwith=0, nseq=0, nse=0, rk='NONE', vform=True),
+                       dict(bf='DEFAULT', mk=val_m, nwith=0, nseq=0, nse=0, rk='NONE', vform=True)]
         for fo in forced:
             shapes.append(gen_shape(rng, sid, fn, fo)); sid += 1
     counts = [60, 26, 28, 12, 12, 12, 16, 14]
